@@ -107,6 +107,51 @@ func (c *CacheModel) Versions(inc int, res *Resource, ns, name string, from, to 
 	return out
 }
 
+// Synced reports whether the informer of res in incarnation inc had been handed
+// its (first) LIST answer by the end of the given step.
+func (c *CacheModel) Synced(inc int, res *Resource, step int) bool {
+	for _, i := range c.entries(inc, res) {
+		ch := &c.log[i]
+		if ch.Step > step {
+			return false
+		}
+		if ch.List {
+			return true
+		}
+	}
+	return false
+}
+
+// storeStable returns the objects of res that were in the store at the end of step
+// from and were not written or deleted up to and including step to.
+func storeStable(w *World, res *Resource, from, to int) []Object {
+	cur := map[objKey][]byte{}
+	touched := map[objKey]bool{}
+	for i := range w.Store.History {
+		ev := &w.Store.History[i]
+		if ev.Res != res || ev.Step > to {
+			continue
+		}
+		k := objKey{res.Key(), ev.NS, ev.Name}
+		if ev.Step > from {
+			touched[k] = true
+			continue
+		}
+		if ev.Type == "DELETED" {
+			delete(cur, k)
+		} else {
+			cur[k] = ev.Raw
+		}
+	}
+	var out []Object
+	for _, k := range viewKeys(cur) {
+		if !touched[k] {
+			out = append(out, mustParse(cur[k]))
+		}
+	}
+	return out
+}
+
 // Keys returns the sorted keys of a view.
 func viewKeys(v map[objKey][]byte) []objKey {
 	ks := make([]objKey, 0, len(v))
